@@ -217,7 +217,9 @@ func headerPart(c *vf.Ctx) {
 		})
 		l2 := header.NewHeader()
 		l2.PIDHigh, l2.PIDLow = uint16(pid>>16), uint16(pid)
-		c.Check("C03/header/pid-join", l2.GetPID() == pid, func() string { return fmt.Sprintf("PIDHigh=%#x PIDLow=%#x GetPID()=%#x", l2.PIDHigh, l2.PIDLow, l2.GetPID()) })
+		c.Check("C03/header/pid-join", l2.GetPID() == pid, func() string {
+			return fmt.Sprintf("PIDHigh=%#x PIDLow=%#x GetPID()=%#x", l2.PIDHigh, l2.PIDLow, l2.GetPID())
+		})
 	}
 	c.Sample("header", map[string]any{"buffers_decoded": len(bufs), "pid_values": len(pids)})
 }
